@@ -67,6 +67,11 @@ private:
   ManifestParserOptions options_;
   bool quiet_;
 
+  // The file being parsed (canonicalized) and the parser of the file that
+  // includes it, used to reject include/subninja cycles.
+  std::string filename_;
+  const ManifestParser* parent_ = nullptr;
+
   // ins_/out_/validations_ are reused across invocations to ParseEdge(),
   // to save on the otherwise constant memory reallocation.
   // subparser_ is reused solely to get better reuse out ins_/outs_/validation_.
